@@ -501,18 +501,94 @@ fn body(ctx: &Ctx) -> (Summary, Meta) {
         all_states.lock().unwrap().extend(st);
         out
     });
+    sum.merge(run_jobs(ctx, "builder-validation", &[2usize, 3, 4, 5][..if quick { 3 } else { 4 }], |l| format!("builder:len{l}"), |&l| {
+        let mut out = JobOut::default();
+        builder_phase(l, &mut out);
+        if out.sample.is_none() {
+            out.sample = Some(Json::str(&format!("builder-validation, relation words of length {l} x every NaN mask")));
+        }
+        out
+    }));
     let st = all_states.into_inner().unwrap();
     sum.total.states = st.len() as u64;
     for (g, w, _) in &st {
         sum.total.outcome(format!("impl={g:?},spec={w:?}"));
     }
     let meta = Meta {
-        rule: "every relation word over {<,=,>} up to the length bound, realised as prefix sums for f64/f32/i32/i64/u32/u8, each as contiguous array, every-2nd-element view of a poisoned array and reversed view; every non-empty NaN mask on every word up to the NaN bound (f64, f32); long words (one base relation + <= 2 deviations; NaN at every position); run-structured words (every word of 2 runs, and of 3 runs with all / selected boundaries) up to length 2080; every word also realised with the type's extreme values (+-inf, MIN/MAX) in place of its largest and smallest level. Oracle: classifier written from the statement (counts of <,=,>); NaN: never Rising. states = distinct (implementation result, spec class, last relation) triples reached = reachable states of the product of the implementation automaton and the spec automaton. Non-trivial = word of length >= 2 or NaN vector.".into(),
+        rule: "every relation word over {<,=,>} up to the length bound, realised as prefix sums for f64/f32/i32/i64/u32/u8, each as contiguous array, every-2nd-element view of a poisoned array and reversed view; every non-empty NaN mask on every word up to the NaN bound (f64, f32); long words (one base relation + <= 2 deviations; NaN at every position); run-structured words (every word of 2 runs, and of 3 runs with all / selected boundaries) up to length 2080; every word also realised with the type's extreme values (+-inf, MIN/MAX) in place of its largest and smallest level. Oracle: classifier written from the statement (counts of <,=,>); NaN: never Rising. states = distinct (implementation result, spec class, last relation) triples reached = reachable states of the product of the implementation automaton and the spec automaton. Non-trivial = word of length >= 2 or NaN vector. Phase builder-validation: every relation word of length 2..4 (5) x every NaN mask handed to Interp1DBuilder.x, Interp2DBuilder.x / .y, and as the y (x) axis of a grid whose other axis is a valid view into the same allocation starting at the same element (row / column of one table, stride-0 broadcast): accepted iff strictly rising.".into(),
         bounds: format!("relation words of length 0..{maxlen} (exhaustive: {} words); NaN masks on words of length <= {nanmax}; long words of lengths {:?}{}", (0..=maxlen).map(|l| 3u64.pow(l as u32)).sum::<u64>(), if quick { longs.clone() } else { vec![14, 130] }, if quick { "" } else { " (every length in the closed interval)" }),
         assumptions: vec![],
         extra: vec![("product_states".into(), Json::Arr(st.iter().map(|(g, w, l)| Json::str(&format!("{g:?}/{w:?}/{l}"))).collect()))],
     };
     (sum, meta)
+}
+
+/// "such an axis can never pass builder validation": every short vector (relation words x NaN masks)
+/// handed to the builders as an axis - directly, and as the y axis of a grid whose x axis is a valid
+/// view into the same allocation starting at the same element (row / column of one table; a
+/// stride-0 broadcast) - is accepted iff it is strictly rising.
+fn builder_phase(len: usize, out: &mut JobOut) {
+    use ndarray::Array2;
+    use ndarray_interp::interp1d::Interp1DBuilder;
+    use ndarray_interp::interp2d::Interp2DBuilder;
+    let m = len + 1;
+    let mut words: Vec<Vec<i8>> = vec![vec![]];
+    for _ in 0..len {
+        words = words.iter().flat_map(|w| [-1i8, 0, 1].iter().map(move |r| { let mut v = w.clone(); v.push(*r); v })).collect();
+    }
+    for w in &words {
+        let mut base = vec![0.0f64];
+        for r in w {
+            base.push(base[base.len() - 1] + *r as f64);
+        }
+        for mask in 0u32..(1 << m) {
+            let v: Vec<f64> = base.iter().enumerate().map(|(i, &b)| if mask >> i & 1 == 1 { f64::NAN } else { b }).collect();
+            let rising = v.windows(2).all(|p| p[0] < p[1]);
+            let name = format!("{w:?}/nan{mask:b}").replace(' ', "");
+            let mut judge = |form: &str, r: Result<Result<(), ndarray_interp::BuilderError>, String>, want_ok: bool, out: &mut JobOut| {
+                out.evals += 1;
+                out.transitions += 1;
+                if !rising {
+                    out.nontrivial += 1;
+                }
+                let got_ok = matches!(r, Ok(Ok(())));
+                out.outcome(format!("builder:{}", if got_ok { "accepted" } else { "rejected" }));
+                if got_ok != want_ok || r.is_err() {
+                    out.violate(
+                        format!("builder:{form}:{name}"),
+                        format!("{form}: axis {v:?} (strictly rising: {rising}) was {}", match &r { Ok(Ok(())) => "accepted".to_string(), Ok(Err(e)) => format!("rejected: {e}"), Err(p) => format!("answered with a panic: {p}") }),
+                        Json::f64s(&v),
+                    );
+                }
+            };
+            let va = Array1::from(v.clone());
+            let d1 = Array1::<f64>::zeros(m);
+            judge("Interp1D.x", catch(|| Interp1DBuilder::new(d1.view()).x(va.view()).build().map(|_| ())), rising, out);
+            let d2 = Array2::<f64>::zeros((m, m));
+            judge("Interp2D.x", catch(|| Interp2DBuilder::new(d2.view()).x(va.view()).build().map(|_| ())), rising, out);
+            judge("Interp2D.y", catch(|| Interp2DBuilder::new(d2.view()).y(va.view()).build().map(|_| ())), rising, out);
+            // x = column 0 (valid unless v[0] is NaN), y = row 0 = v of one table
+            let mut table = Array2::<f64>::from_elem((m, m), 9.0);
+            for i in 0..m {
+                table[[i, 0]] = v[0] + i as f64;
+                table[[0, i]] = v[i];
+            }
+            let x_ok = !v[0].is_nan();
+            judge("Interp2D(x = table.column(0), y = table.row(0))", catch(|| Interp2DBuilder::new(d2.view()).x(table.column(0)).y(table.row(0)).build().map(|_| ())), rising && x_ok, out);
+            judge("Interp2D(x = table.row(0), y = table.column(0))", catch(|| Interp2DBuilder::new(d2.view()).x(table.row(0)).y(table.column(0)).build().map(|_| ())), rising && x_ok, out);
+        }
+    }
+    // y is a stride-0 broadcast of the first element of a valid x
+    let x = Array1::from((0..m).map(|i| i as f64).collect::<Vec<_>>());
+    let d2 = ndarray::Array2::<f64>::zeros((m, m));
+    let y = x.slice(s![..1]);
+    let y = y.broadcast(m).unwrap();
+    let r = catch(|| ndarray_interp::interp2d::Interp2DBuilder::new(d2.view()).x(x.view()).y(y).build().map(|_| ()));
+    out.evals += 1;
+    out.nontrivial += 1;
+    if matches!(r, Ok(Ok(()))) || r.is_err() {
+        out.violate(format!("builder:broadcast:m{m}"), format!("Interp2D(x = 0..{m}, y = stride-0 broadcast of x[0]): a constant y axis was {r:?}"), Json::Null);
+    }
 }
 
 fn main() {
